@@ -144,6 +144,7 @@ func ruleC09(w *World, r *Report) {
 		"R09.4 UP4: pir = MBR×125 iff MBR ≠ 0, burst from the MBR, uplink/downlink cells get ul/dl rates, QFI→TC through the presence-checked map (shared with C04), qosLevel routes to the application / session meter; R09.5 loops over the session's rule lists in MarkSessionQer cover every element."
 	r.Explanation += " R09.6 every element put into the two meter-cell pools is ≥ 1 (cell 0 = no meter); R09.7 MarkSessionQer narrows a private copy, never the qerIDList of a stored PDR."
 	r.Explanation += " R09.8 ulStatus/dlStatus come from the uplink/downlink gate of the IE; R09.9 meters are programmed and reset in the array of their kind; R09.10 every configured QCI entry is stored and the built-in QCI 0 entry only fills a gap."
+	r.Explanation += " R09.11 an empty intersection with one PDR's list ends the session-QER search without a label; R09.12 findRelatedApplicationQER matches on qerIDList[0]."
 	r.NotDecided = "which QER MarkSessionQer labels (an algorithm over list shapes); that re-labelling never happens across modification histories"
 	keep := map[string]bool{"maxUint64": true, "calcBurstSizeFromRate": true}
 	add := workerOf(w.Fn(P, "pfcpiface.(*bess).addQER"))
